@@ -187,6 +187,32 @@ static const std::map<std::string, F1> &f1table()
          [](const RCP<const Basic> &a) { return rewrite_as_cos(a); }},
         {"unevaluated_expr",
          [](const RCP<const Basic> &a) { return unevaluated_expr(a); }},
+        {"expand_as_exp",
+         [](const RCP<const Basic> &a) { return a->expand_as_exp(); }},
+        {"numer",
+         [](const RCP<const Basic> &a) {
+             RCP<const Basic> n, d;
+             as_numer_denom(a, outArg(n), outArg(d));
+             return n;
+         }},
+        {"denom",
+         [](const RCP<const Basic> &a) {
+             RCP<const Basic> n, d;
+             as_numer_denom(a, outArg(n), outArg(d));
+             return d;
+         }},
+        {"real_part",
+         [](const RCP<const Basic> &a) {
+             RCP<const Basic> re, im;
+             as_real_imag(a, outArg(re), outArg(im));
+             return re;
+         }},
+        {"imag_part",
+         [](const RCP<const Basic> &a) {
+             RCP<const Basic> re, im;
+             as_real_imag(a, outArg(re), outArg(im));
+             return im;
+         }},
     };
     return m;
 }
